@@ -94,12 +94,15 @@ def atom_env(m, n):
 
 
 # ---- contracts on one molecule -------------------------------------------------------------------------------------------------
-def check_atoms(m, tag, aromatic=False, h3=True):
-    """H1, H2, H3 for every atom of m; returns list of (contract, what, detail)"""
+def check_atoms(m, tag, aromatic=False, h3=None, atoms=None, none_other=None):
+    """H1, H3 for the atoms `atoms` (default all; H3 for atoms in h3, default all) and H2 for the molecule.
+    none_other: atoms outside `atoms` already known to have no valence state by the reference.
+    returns (list of (contract, what, detail), atoms without state by the reference among `atoms`)"""
     from oracles import o04_valence as O
     bad = []
     none_expected = []
-    for n, a in m.atoms():
+    for n in (m._atoms if atoms is None else atoms):
+        a = m._atoms[n]
         envn = atom_env(m, n)
         arom = any(o == 4 for o, _ in envn)
         if arom:
@@ -114,7 +117,7 @@ def check_atoms(m, tag, aromatic=False, h3=True):
             bad.append(('H1-table-rederivation', f'{tag}: atom {n} {a.atomic_symbol}{a.charge:+d}{"*" if a.is_radical else ""} with bonds '
                         f'[{envtext(envn)}] has implicit_hydrogens={a.implicit_hydrogens}, the element tables give {exp}',
                         {'atom': n, 'library': a.implicit_hydrogens, 'reference': exp}))
-        if h3 and a.atomic_symbol != 'H':
+        if (h3 is None or n in h3) and a.atomic_symbol != 'H':
             for h in range(5):
                 got = m.check_implicit(n, h)
                 if got != (h in cand):
@@ -123,10 +126,11 @@ def check_atoms(m, tag, aromatic=False, h3=True):
                                 {'atom': n, 'h': h, 'library': got, 'candidates': cand}))
                     break
     cv = sorted(m.check_valence())
-    if cv != sorted(none_expected):
-        bad.append(('H2-check_valence', f'{tag}: check_valence() = {cv}, atoms without a valence state by the element tables = {sorted(none_expected)}',
-                    {'library': cv, 'reference': sorted(none_expected)}))
-    return bad
+    ref = sorted(set(none_expected) | set(none_other or ()))
+    if cv != ref:
+        bad.append(('H2-check_valence', f'{tag}: check_valence() = {cv}, atoms without a valence state by the element tables = {ref}',
+                    {'library': cv, 'reference': ref}))
+    return bad, none_expected
 
 
 def check_totals(m, tag):
@@ -158,18 +162,32 @@ def check_totals(m, tag):
     return bad, True
 
 
-def check_state(sym, ch, rad, envt, ring=''):
-    """all contracts for one grid state; returns (violations [(key, what, witness, native)], nontrivial?, info)"""
+def check_state(sym, ch, rad, envt, ring='', reuse=None):
+    """all contracts for one grid state; returns (violations [(key, what, witness, native)], nontrivial?, info).
+    reuse = (molecule built for another charge/radical state of the same environment, reference-None atoms among the neighbours):
+    the state of the central atom is set through the public setters and calc_implicit(1) is called again - the labels of the
+    molecule do not depend on charge / radical flag.  Without `reuse` (first state of each environment, replay) the molecule is built afresh
+    and every atom is checked."""
     from oracles import o04_valence as O
     envt = tuple(tuple(x) for x in envt)
     tag = statekey(sym, ch, rad, envt, ring + ':' if ring else '')
     wit = {'kind': 'grid', 'ring': ring, 'element': sym, 'charge': ch, 'radical': rad, 'bonds': [list(x) for x in envt]}
-    m = build_ring(ring, sym, ch, rad, envt) if ring else build_star(sym, ch, rad, envt)
+    if reuse is None:
+        m = build_ring(ring, sym, ch, rad, envt) if ring else build_star(sym, ch, rad, envt)
+        bad, none_all = check_atoms(m, tag, aromatic=bool(ring), h3=(1,))
+        none_other = [n for n in none_all if n != 1]
+    else:
+        m, none_other = reuse
+        a = m._atoms[1]
+        a.charge = ch
+        a.is_radical = rad
+        m.flush_cache()
+        m.calc_implicit(1)
+        bad, _ = check_atoms(m, tag, aromatic=bool(ring), h3=(1,), atoms=(1,), none_other=none_other)
     h = m._atoms[1].implicit_hydrogens
-    bad = check_atoms(m, tag, aromatic=bool(ring))
     tb, ok = check_totals(m, tag)
     bad += tb
-    info = {'h': h, 'totals': ok, 'rdkit': None}
+    info = {'h': h, 'totals': ok, 'rdkit': None, 'mol': m, 'none_other': none_other}
     if not ring:
         t = O.textbook(sym, ch, rad, envt)
         if t is not None and t != h:
@@ -180,8 +198,7 @@ def check_state(sym, ch, rad, envt, ring=''):
             th = h + sum(1 for _, e in envt if e == 'H')
             info['rdkit'] = rh
             if rh is None:
-                cand_env_row = sym in HYPERVALENT_HALOGENS and sum(o for o, _ in envt) > 1
-                if cand_env_row:
+                if sym in HYPERVALENT_HALOGENS and sum(o for o, _ in envt) > 1:
                     info['rdkit'] = 'out-of-domain'
                 else:
                     bad.append(('H5-rdkit-accepts', f'{tag}: library assigns {th} hydrogens in total, RDKit rejects the atom (no valence state)',
@@ -201,31 +218,34 @@ def _multisets(neigh, sizes, orders=ORDERS):
 
 def w_grid(item):
     _setup()
-    sym, ch, neigh, sizes, orders, part, parts, ring = item
+    sym, charges, neigh, sizes, orders, part, parts, ring = item
     n = 0
     keys, samples, viol = [], [], []
     stats = Counter()
     for i, envt in enumerate(_multisets(neigh, sizes, orders)):
         if i % parts != part:
             continue
-        for rad in (False, True):
-            v, nt, info = check_state(sym, ch, rad, envt, ring)
-            n += 1
-            if nt:
-                keys.append(statekey(sym, ch, rad, envt, ring))
-                if len(samples) < 1 and info['h']:
-                    samples.append({'state': statekey(sym, ch, rad, envt, ring), 'implicit_hydrogens': info['h'], 'rdkit_total_h': info['rdkit']})
-            if info['totals']:
-                stats['totals'] += 1
-            if info['rdkit'] == 'out-of-domain':
-                stats['rdkit_out_of_domain'] += 1
-            elif info['rdkit'] is not None:
-                stats['rdkit_agree'] += 1
-            elif info['h'] is None and not ring:
-                stats['library_none'] += 1
-            if v and len(viol) < MAXV:
-                viol.extend(v[:MAXV - len(viol)])
-            stats['violating_states'] += bool(v)
+        reuse = None
+        for ch in charges:
+            for rad in (False, True):
+                v, nt, info = check_state(sym, ch, rad, envt, ring, reuse)
+                reuse = (info['mol'], info['none_other'])
+                n += 1
+                if nt:
+                    keys.append(statekey(sym, ch, rad, envt, ring))
+                    if len(samples) < 1 and info['h']:
+                        samples.append({'state': statekey(sym, ch, rad, envt, ring), 'implicit_hydrogens': info['h'], 'rdkit_total_h': info['rdkit']})
+                if info['totals']:
+                    stats['totals'] += 1
+                if info['rdkit'] == 'out-of-domain':
+                    stats['rdkit_out_of_domain'] += 1
+                elif info['rdkit'] is not None:
+                    stats['rdkit_agree'] += 1
+                elif info['h'] is None and not ring:
+                    stats['library_none'] += 1
+                if v and len(viol) < MAXV:
+                    viol.extend(v[:MAXV - len(viol)])
+                stats['violating_states'] += bool(v)
     return n, keys, samples, viol, dict(stats)
 
 
@@ -247,7 +267,7 @@ def check_corpus_smiles(s):
     m.thiele()
     tag = s
     # Kekule form: table re-derivation, check_valence, check_implicit
-    bad += check_atoms(kek, tag + ' (kekule form)', aromatic=False)
+    bad += check_atoms(kek, tag + ' (kekule form)', aromatic=False)[0]
     tb, _ = check_totals(kek, tag + ' (kekule form)')
     bad += tb
     # aromatic form: same counts atom by atom; aromatic-carbon rule == Kekule-derived count == parse-time count
@@ -341,28 +361,27 @@ def bounded(run):
                     run.violation(key, what, witness=wit, native=native)
 
     # 1. the exhaustive grid of the property
-    parts = 8
-    items = [(sym, ch, O.NEIGHBOURS, (0, 1, 2, 3, 4), ORDERS, p, parts, '') for sym in O.ORGANIC for ch in CHARGES for p in range(parts)]
+    parts = 32
+    items = [(sym, CHARGES, O.NEIGHBOURS, (0, 1, 2, 3, 4), ORDERS, p, parts, '') for sym in O.ORGANIC for p in range(parts)]
     collect(pmap(w_grid, items), 'grid')
     nm = sum(1 for _ in _multisets(O.NEIGHBOURS, (0, 1, 2, 3, 4)))
     run.bound(f'grid (exhaustive, seed independent): {len(O.ORGANIC)} elements {O.ORGANIC} x charge -2..+2 x radical flag x all {nm} multisets of '
               f'<= 4 bonds of orders 1-3 to {O.NEIGHBOURS} = {len(O.ORGANIC) * 10 * nm} real molecules; every atom of each molecule is checked')
     # 2. rows with five and six neighbours (SF6, PF6-, IF5 ...): single/double bonds to F, O, C
-    items = [(sym, ch, ('F', 'O', 'C'), (5, 6), (1, 2), 0, 1, '') for sym in O.ORGANIC for ch in CHARGES]
+    items = [(sym, CHARGES, ('F', 'O', 'C'), (5, 6), (1, 2), 0, 1, '') for sym in O.ORGANIC]
     collect(pmap(w_grid, items), 'grid56')
     run.bound('grid56 (exhaustive): same states x all 714 multisets of 5-6 bonds of orders 1-2 to (F, O, C)')
     # 3. aromatic-carbon special cases on real rings
     items = []
     for kind, sizes in (('a2', (0, 1, 2)), ('a3', (0, 1)), ('a1', (0, 1)), ('a4', (0,))):
         for sym in O.ORGANIC:
-            for ch in (CHARGES if sym == 'C' else (-1, 0, 1)):
-                items.append((sym, ch, O.NEIGHBOURS, sizes, ORDERS, 0, 1, kind))
+            items.append((sym, CHARGES if sym == 'C' else (-1, 0, 1), O.NEIGHBOURS, sizes, ORDERS, 0, 1, kind))
     collect(pmap(w_grid, items), 'arom')
     run.bound('arom (exhaustive): ring position with 2 / 3 / 1 / 4 aromatic (order 4) bonds in benzene / naphthalene-fusion / dangling / spiro '
               'carbocycles x 13 elements x charges x radical flag x all multisets of <= 2 / 1 / 1 / 0 further bonds')
     if thorough:
         ext = ('Br', 'I', 'P', 'B', 'Se', 'Si', 'C', 'O')
-        items = [(sym, ch, ext, (1, 2, 3), ORDERS, p, 2, '') for sym in O.ORGANIC for ch in CHARGES for p in range(2)]
+        items = [(sym, CHARGES, ext, (1, 2, 3), ORDERS, p, 8, '') for sym in O.ORGANIC for p in range(8)]
         collect(pmap(w_grid, items), 'gridx')
         run.bound(f'gridx (thorough, exhaustive): same states x all multisets of 1-3 bonds of orders 1-3 to the extended neighbour set {ext}')
     # 4. corpus
